@@ -17,14 +17,13 @@ VOUCHED_TIME = KaniUnit(
                 "ensures ret.is_ok() <=> 0 <= local <= u64::MAX /\\ -59900 <= local - base <= 2990 "
                 "(difference in i128, no wrap), for all (i128, u64); no panic/overflow",
                 kind="proof", covers=5, timeout=600),
-        Harness("c14_new_composition", ["C14"], "VouchedTime::new",
-                "check/new are Ok <=> voucher check passes (called with exactly (base, voucher) under "
-                "BASE_TIME_CHECK) /\\ window(ms(local), base); no panic; get_local_time() returns the input; for all "
-                "base times, voucher bits and verdicts; local over 8 listed datetimes (epoch, calendar limits, "
-                "sub-ms truncation)", kind="proof", covers=3, timeout=900,
-                functions=["VouchedTime::new", "VouchedTime::check", "VouchedTime::get_local_time",
-                           "VouchedTime::check_or_die"]),
-        Harness("c14_real_voucher_pins_parameters", ["C14"], "VouchedTime::new",
+        Harness("c14_check_composition", ["C14"], "VouchedTime::check",
+                "bit-precise cross-check with the real `time` conversion: check is Ok <=> voucher check passes (called "
+                "with exactly (base, voucher) under BASE_TIME_CHECK) /\\ window(ms(local), base); no panic; for all base "
+                "times, voucher bits and verdicts; local over 8 listed datetimes (epoch, calendar limits, sub-ms "
+                "truncation)", kind="bounded", bound="local time over 8 listed datetimes; base, voucher, verdict complete",
+                covers=3, timeout=900),
+        Harness("c14_real_voucher_pins_parameters", ["C14"], "VouchedTime::check",
                 "with the real raffle code: a voucher for the base under the crate's parameters is accepted; one for "
                 "another value, another base, or other parameters is rejected", kind="proof", timeout=600),
     ],
@@ -37,7 +36,7 @@ def _c15_harnesses():
         ("push_back", "SlidingDeque::push_back", "view' = view ++ [x]; back() = x", 2),
         ("pop_front", "SlidingDeque::pop_front", "returns view[0] (None on empty); view' = view[1..]", 4),
         ("pop_back", "SlidingDeque::pop_back", "returns view[last] (None on empty); view' = view[..last]", 3),
-        ("advance", "SlidingDeque::advance", "for every usize count: returns min(count, len); view' = view[ret..]", 3),
+        ("advance", "SlidingDeque::advance", "for count in {{0..N+1}} u {{2^63, usize::MAX-1, usize::MAX}}: returns min(count, len); view' = view[ret..]", 3),
         ("clear", "SlidingDeque::clear", "view' = []", 0),
         ("slide", "SlidingDeque::slide", "view' = view; consumed prefix = 0", 1),
         ("views", "SlidingDeque::{front,back,front_mut,back_mut,deref,deref_mut,len,is_empty}",
@@ -51,8 +50,8 @@ def _c15_harnesses():
                 "c15_%s_%s" % (backing, op), ["C15"], owner,
                 "[%s] requires rep_ok; ensures rep_ok (consumed <= len/2, empty => consumed = 0, debug check_rep "
                 "asserts pass, no panic) /\\ %s" % (label, post),
-                kind="bounded", bound="backing container length <= {N} (any contents, any admissible consumed "
-                "prefix); inductive per operation => all histories within that size",
+                kind="bounded", bound="backing container length <= {N}: every (length, consumed prefix) pair enumerated, "
+                "contents symbolic; inductive per operation => all histories within that size",
                 covers=covers, timeout=900, mod="sliding_deque"))
     return hs
 
@@ -60,7 +59,7 @@ def _c15_harnesses():
 SLIDING_DEQUE = KaniUnit(
     crate="sliding_deque",
     attachments=[("sliding_deque/src/sliding_deque.rs", os.path.join(KC, "sliding_deque.rs"), "sliding_deque")],
-    params={"quick": {"N": 5, "U": 8}, "thorough": {"N": 7, "U": 10}},
+    params={"quick": {"N": 5, "U": 12}, "thorough": {"N": 7, "U": 14}},
     harnesses=_c15_harnesses(),
 )
 
@@ -94,21 +93,24 @@ ROUGH_TLV = KaniUnit(
 KANI_UNITS = {u.crate: u for u in [VOUCHED_TIME, SLIDING_DEQUE, ROUGH_TLV]}
 
 import units_hcobs
-VERUS_UNITS = {"hcobs": units_hcobs.HCOBS}
+import units_vouched_time
+VERUS_UNITS = {"hcobs": units_hcobs.HCOBS, "vouched_time": units_vouched_time.VOUCHED_TIME_VX}
 
 # property -> description of how it is decided
 PROPERTIES = {
     "C14": {
         "level": "proof",
         "kani_units": ["vouched_time"],
-        "verus_units": [],
+        "verus_units": ["vouched_time"],
         "assumptions": [
-            "raffle::CheckingParameters::check and time::PrimitiveDateTime::{assume_utc,unix_timestamp_nanos} are "
-            "dependencies: they run as real code inside the harness and serve as their own oracle for 'vouches' "
-            "and 'milliseconds since the epoch'",
-            "VouchedTime::now = new applied to time::OffsetDateTime::now_utc() (3-line composition, read, not "
-            "executed: Kani cannot call the system clock)",
-            "Voucher is repr(transparent) over u64: every bit pattern is a valid voucher value",
+            "ASSUMED (dependencies, vx/vouched_time/standins.rs): raffle::CheckingParameters::check is a deterministic "
+            "predicate `vouches`; time::PrimitiveDateTime::assume_utc / OffsetDateTime::unix_timestamp_nanos return the "
+            "value's UTC nanoseconds since the epoch; OffsetDateTime::now_utc returns an arbitrary value; "
+            "std::io::Error::other builds an error value (N9 alias io_error_other)",
+            "representation invariant `valid` of VouchedTime: fields are private and every constructor (new, new_or_die, "
+            "now, now_or_die) ensures it; get_local_time / check_or_die require it (Clone/Copy preserve it)",
+            "Kani cross-checks run the real `time` and `raffle` code; Voucher is repr(transparent) over u64",
+            "now_or_die = now(..).expect(..): panics by design when now fails; not under contract",
         ],
     },
 }
